@@ -1,7 +1,8 @@
 (* Pinned statements for C13: compiled on every check run. A statement weakened in Props/ fails here. *)
 From Coq Require Import Permutation.
 From TS Require Import Model.Str Model.Syntax Model.Attrs Model.TargetOs Spec.TargetOsRule.
-From TS Require Proofs.C13.
+From TS Require Proofs.C13 Proofs.C13Levels Proofs.FrontItems.
+From TS Require Import Model.Outcome Model.Unicode Model.Types Model.Parse Spec.Serde Spec.C03Spec.
 From TS Require Props.C13.
 
 Goal forall (attrs : list attr) (T : list str),
@@ -22,3 +23,33 @@ Print Assumptions Props.C13.C13_items_naming_no_os_are_kept.
 Goal forall (attrs : list attr) (T : list str), exists b, accept_target_os attrs T = Some b.
 Proof. exact Props.C13.C13_decision_total. Qed.
 Print Assumptions Props.C13.C13_decision_total.
+Goal forall (uc : unicode) (tstr : str -> option ty) (T : list str) attrs ident gens l s,
+  (forall f, In f l -> cfg_parsable (f_attrs f) = true) ->
+  parse_struct uc tstr T attrs ident gens (FNamed l) = Ok (ItStruct s) ->
+  map (fun rf => original (fid rf)) (sfields s) =
+  map Proofs.FrontItems.field_name (filter (fun f => negb (skip_marked (f_attrs f)) && os_rule (f_attrs f) T) l).
+Proof. exact Props.C13.C13_field_level. Qed.
+Print Assumptions Props.C13.C13_field_level.
+Goal forall (uc : unicode) (tstr : str -> option ty) (T : list str) attrs ident gens vs e,
+  (forall v, In v vs -> cfg_parsable (v_attrs v) = true) ->
+  parse_enum uc tstr T attrs ident gens vs = Ok (ItEnum e) ->
+  map (fun rv => original (vid (variant_shared rv))) (evariants (enum_shared e)) =
+  map (fun v => replace_sub (lit "r#") [] (v_ident v))
+      (filter (fun v => negb (skip_marked (v_attrs v)) && os_rule (v_attrs v) T) vs).
+Proof. exact Props.C13.C13_variant_level. Qed.
+Print Assumptions Props.C13.C13_variant_level.
+Goal forall (uc : unicode) (tstr : str -> option ty) (T : list str) ra attrs ident l rv,
+  (forall f, In f l -> cfg_parsable (f_attrs f) = true) ->
+  parse_enum_variant uc tstr T ra {| v_attrs := attrs; v_ident := ident; v_fields := FNamed l |} = Ok rv ->
+  exists fs sh, rv = VAnon fs sh /\
+    map (fun rf => original (fid rf)) fs =
+    map Proofs.FrontItems.field_name (filter (fun f => negb (skip_marked (f_attrs f)) && os_rule (f_attrs f) T) l).
+Proof. exact Props.C13.C13_variant_field_level. Qed.
+Print Assumptions Props.C13.C13_variant_field_level.
+Goal forall (T : list str) attrs, cfg_parsable attrs = true -> wanted T attrs = annotated attrs && os_rule attrs T.
+Proof. exact Props.C13.C13_item_level. Qed.
+Print Assumptions Props.C13.C13_item_level.
+Goal forall (uc : unicode) (tstr : str -> option ty) (T : list str) f,
+  cfg_parsable (fl_attrs f) = true -> os_rule (fl_attrs f) T = false -> parse_file uc tstr T f = Ok None.
+Proof. exact Props.C13.C13_file_level. Qed.
+Print Assumptions Props.C13.C13_file_level.
